@@ -83,8 +83,9 @@ def one_world(args):
             w.f_drop, w.f_dup, w.f_delay = fault["drop"], fault["dup"], fault["delay"]
             w.faulty_until = t0 + fault["ms"]
         # offer packets on both sides, spread over the faulty period and after it
+        sizes = SIZES if scenario not in ("auto", "forced") else [0, 1, 20, 60, 100]
         for i in range(nframes):
-            n = rng.choice(SIZES)
+            n = rng.choice(sizes)
             if rng.random() < 0.5:
                 f = frame_to_server_side(rng, n); sent_c.append((w.ms, f)); w.offer_to_client(f)
             else:
